@@ -29,6 +29,7 @@ type PathOpts struct {
 	MapOrderExplore bool
 	LogEvents       bool
 	Concrete        []InputRec // if non-nil, run concretely with these inputs
+	Model           map[string]uint64 // a model of the prefix's path condition (nil = unknown)
 }
 
 var initWhitelist = map[string]bool{
@@ -153,6 +154,7 @@ func (m *Machine) run(body func(), name string, prefix []int, opts PathOpts, isI
 		isConcrete: opts.Concrete != nil,
 		mapOrderExplore: opts.MapOrderExplore,
 		locks: map[*value]bool{},
+		curModel: modelT{},
 	}
 	q0, t0 := m.sol.queries, m.sol.solveTime
 	e0 := m.sol.errors
@@ -161,6 +163,13 @@ func (m *Machine) run(body func(), name string, prefix []int, opts PathOpts, isI
 	c.sched.explore = opts.SchedExplore
 	c.sched.preemptBudget = opts.PreemptBudget
 	c.sched.logEvents = opts.LogEvents
+	if len(prefix) > 0 {
+		if opts.Model != nil {
+			c.curModel = modelT(opts.Model)
+		} else {
+			c.curModel = nil
+		}
+	}
 	cur = c
 	start := time.Now()
 	main := c.sched.spawn(func() {
@@ -194,10 +203,22 @@ func (m *Machine) run(body func(), name string, prefix []int, opts PathOpts, isI
 	<-c.sched.finished
 	c.sched.killAll()
 	res.Outcome, res.Detail = c.sched.outcome, c.sched.detail
-	_ = start
+	res.WallMs = float64(time.Since(start)) / 1e6
 	// path-level witness: a model of the final path condition
 	if !isInit && (res.Outcome == "ok" || res.Outcome == "panic" || res.Outcome == "deadlock" || res.Outcome == "budget" || res.Outcome == "exit") {
-		if w, ok := c.model(nil, false); ok {
+		if c.curModel != nil {
+			// self-check: the maintained model must satisfy every asserted
+			// path-condition term under the engine's own evaluator
+			memo := map[int32]uint64{}
+			for _, t := range c.pcTerms {
+				if t.eval(c.curModel, memo) == 0 {
+					res.Outcome = "engine-error"
+					res.Detail = "maintained model violates the path condition: " + t.String()
+					break
+				}
+			}
+		}
+		if w, ok := c.model(nil, false); ok && res.Outcome != "engine-error" {
 			res.Witness = w
 			res.HasWitness = true
 			mm := c.modelMap(w)
